@@ -461,4 +461,129 @@ def getRevocationsReturnsSrc : List String :=
     (which IsRevoked — pinned by fact_wiring — turns into "not revoked") -/
 theorem fact_revocation_store_read_errors : Nuts.Facts.C01.getRevocationsReturns = getRevocationsReturnsSrc := by rfl
 
+/-- the curve → algorithm switch of crypto/jwx.AlgorithmFitsKey, regenerated from the source, IS the model's `algorithmFitsKey`
+    (for every algorithm and key kind); the switch's default lets other curves pass -/
+theorem fact_algorithm_fits_key_table (alg kind : String) :
+    algorithmFitsKey alg kind = algorithmFitsKeyT Nuts.Facts.C01.curveAlgTable alg kind ∧ Nuts.Facts.C01.curveAlgDefault = "true" := by
+  refine ⟨?_, rfl⟩
+  unfold algorithmFitsKey algorithmFitsKeyT Nuts.Facts.C01.curveAlgTable
+  by_cases h1 : kind = "P-256"
+  · subst h1; simp [List.find?]
+  · by_cases h2 : kind = "P-384"
+    · subst h2; simp [List.find?]
+    · by_cases h3 : kind = "P-521"
+      · subst h3; simp [List.find?]
+      · have e1 : ("P-256" == kind) = false := by simp; exact fun h => h1 h.symm
+        have e2 : ("P-384" == kind) = false := by simp; exact fun h => h2 h.symm
+        have e3 : ("P-521" == kind) = false := by simp; exact fun h => h3 h.symm
+        simp [List.find?, h1, h2, h3, e1, e2, e3]
+
+/-- the status-list constants the default validator and the status check compare with are the source's -/
+theorem fact_status_list_constants : Nuts.Facts.C01.c_StatusList2021EntryType = statusListEntryType ∧
+    Nuts.Facts.C01.c_W3cStatusList2021Context = statusListContext ∧
+    Nuts.Facts.C01.c_StatusList2021ContextURI_expr = "ssi.MustParseURI(jsonld.W3cStatusList2021Context)" := by decide
+
+/-! ## compositions across layers: issuer → validator → subject; REST → VerifyVP -/
+
+theorem issued_credential_passes_its_validator (P : Crypto) (E : Env) (sign : Key → Bytes → Sig) (allDefined : Cred → Bool)
+    (rawOf : Cred → String) (fmt : Format) (t : Template) (uuid : String) (now : Time) (c : Cred)
+    (h : issue P E sign allDefined rawOf fmt t uuid now = .ok c) :
+    validate E c = .pass ∧ c.shapeOK = t.shapeOK ∧ c.types = (if t.types.contains vcType then t.types else t.types ++ [vcType]) := by
+  unfold issue at h
+  cases hd : E.parseDID t.issuer with
+  | none => simp [hd] at h
+  | some d =>
+    simp only [hd] at h
+    cases hk : resolveKey E d with
+    | none => simp [hk] at h
+    | some kk =>
+      obtain ⟨kid, key⟩ := kk
+      simp only [hk] at h
+      split at h
+      · cases h
+      · cases fmt with
+        | other => simp at h
+        | ld =>
+          simp only at h
+          split at h
+          · cases h
+          · split at h
+            · rename_i hv
+              split at h
+              · cases h
+              · injection h with h; subst h
+                exact ⟨hv, rfl, rfl⟩
+            · cases h
+            · cases h
+        | jwt =>
+          simp only at h
+          split at h
+          · cases h
+          · split at h
+            · rename_i hv
+              injection h with h; subst h
+              exact ⟨hv, rfl, rfl⟩
+            · cases h
+            · cases h
+
+theorem findValidator_append_vcType (ts : List String) : findValidator (ts ++ [vcType]) = findValidator ts := by
+  unfold findValidator
+  simp [List.filter_append]
+
+/-- END TO END (template → issuer → subject): the node's own issuer never signs-and-returns a NutsAuthorizationCredential whose subject is
+    malformed: whatever `Issue` returns has one subject with a DID id, a non-blank purposeOfUse and only well-formed resources with
+    operations of the regenerated allow-list -/
+theorem issuer_refuses_malformed_authorization_credential (P : Crypto) (E : Env) (sign : Key → Bytes → Sig) (allDefined : Cred → Bool)
+    (rawOf : Cred → String) (fmt : Format) (t : Template) (uuid : String) (now : Time) (c : Cred) (s : SubjectView)
+    (hs : t.shapeOK = shapeOf Nuts.Facts.C01.validOperationTypes E t.types s) (ht : findValidator t.types = .auth)
+    (h : issue P E sign allDefined rawOf fmt t uuid now = .ok c) :
+    s.n = 1 ∧ blank s.id = false ∧ (E.parseDID s.id).isSome = true ∧ blank s.purposeOfUse = false ∧
+    ∀ r ∈ s.resources, blank r.path = false ∧ r.operations ≠ [] ∧
+      ∀ o ∈ r.operations, goLower o ∈ Nuts.Facts.C01.validOperationTypes := by
+  obtain ⟨hv, hsh, hty⟩ := issued_credential_passes_its_validator P E sign allDefined rawOf fmt t uuid now c h
+  have hfc : findValidator c.types = .auth := by
+    rw [hty]; split
+    · exact ht
+    · rw [findValidator_append_vcType]; exact ht
+  have h1 : c.shapeOK = true := validate_pass_shape hv (by rw [hfc]; decide)
+  rw [hsh, hs] at h1
+  simp only [shapeOf, ht] at h1
+  obtain ⟨a1, a2, a3, a4, a5⟩ := (authShape_iff _ _ _).mp h1
+  refine ⟨a1, a2, a3, a4, ?_⟩
+  intro r hr
+  obtain ⟨x, y, z⟩ := (validateResources_iff _ _).mp a5 r hr
+  refine ⟨x, y, ?_⟩
+  intro o ho
+  have := z o ho
+  unfold validOperation at this
+  exact List.contains_iff_mem.mp this
+
+/-- POST /internal/vcr/v2/verifier/vp: a presentation the API reports valid (credentials verified: the default) satisfies every
+    conjunct of `vp_valid_only_if`, with trust in the credentials' issuers REQUIRED exactly when the signer is a did:nuts DID -/
+theorem api_vp_valid_only_if (cfg : Cfg) (P : Crypto) (E : Env) (option : Option Bool) (at_ : Option Time) (vp : Pres)
+    (ho : option ≠ some false) (h : apiVerifyVP cfg P E option at_ vp = .ok ()) :
+    ∃ s, presentationSigner E vp = some s ∧
+      (∀ c ∈ vp.vcs, subjectDID c = some s) ∧
+      (∀ c ∈ vp.vcs, verify cfg P E (!("did:nuts:".toList.isPrefixOf s.toList)) (vcCheckSig vp c) at_ c = .ok ()) := by
+  unfold apiVerifyVP at h
+  cases hs : presentationSigner E vp with
+  | none => rw [hs] at h; cases h
+  | some s =>
+    rw [hs] at h
+    simp only at h
+    have hopt : option.getD true = true := by
+      cases option with
+      | none => rfl
+      | some b => cases b with
+        | true => rfl
+        | false => exact absurd rfl ho
+    rw [hopt] at h
+    obtain ⟨s', hs', hall, _, _, hv, _⟩ := vp_valid_only_if cfg P E _ at_ vp h
+    rw [hs] at hs'; injection hs' with hs'; subst hs'
+    exact ⟨s, rfl, hall, hv⟩
+
+example : (issue exP exE3 exSign (fun _ => true) (fun _ => "hdr.claims") .ld
+    { exT with types := [authType], ctx := [vcContextV1, nutsContextV1], shapeOK := shapeOf Nuts.Facts.C01.validOperationTypes exE3 [authType] exAuthSubj } "1" 1000).isOk = true := by decide
+example : apiVerifyVP exCfg exP exE none (some 2000) exVP = .ok () := by decide
+
 end Nuts.C01.Props
